@@ -200,125 +200,6 @@ theorem rewriteInt_hex_value (hex : HexCase) (fz : TrailingZero) (symbol suffix 
       exact ⟨r, r.map lowerAscii, rfl, h.symm, by simp, hexValue_map _ hexDigitVal_lower lower_underscore r⟩
   · simp at h
 
-theorem isDigU_ne_dot {c : Char} (h : isDigU c = true) : c ≠ '.' := by
-  intro hc; subst hc; simp [isDigU, isDigit] at h
-
-theorem all_digU_last {l : List Char} (h : l.all isDigU = true) (hne : l ≠ []) : l.getLast? ≠ some '.' := by
-  intro hl
-  have hm : '.' ∈ l := List.mem_of_getLast? hl
-  exact isDigU_ne_dot (List.all_eq_true.1 h _ hm) rfl
-
-theorem expWF_last {e : List Char} (h : RF.Lemmas.Literal.ExpWF e) : e ≠ [] ∧ e.getLast? ≠ some '.' := by
-  obtain ⟨c, sign, d, rfl, -, -, hd, hne⟩ := h.ex
-  refine ⟨by simp, ?_⟩
-  have : (c :: sign ++ d).getLast? = d.getLast? := by
-    rw [show c :: sign ++ d = (c :: sign) ++ d from rfl, List.getLast?_append]
-    cases hd' : d.getLast? with
-    | none => exact absurd (List.getLast?_eq_none_iff.1 hd') hne
-    | some x => rfl
-  rw [this]
-  exact all_digU_last hd hne
-
-theorem getLast?_append_of_ne {a b : List Char} (hb : b ≠ []) : (a ++ b).getLast? = b.getLast? := by
-  rw [List.getLast?_append]
-  cases h : b.getLast? with
-  | none => exact absurd (List.getLast?_eq_none_iff.1 h) hb
-  | some x => rfl
-
-/-- **The predicate the callers ask is exact.**  For every option value other than Preserve and every
-symbol the rewriter accepts: `float_lit_ends_in_dot` answers `true` exactly when the text
-`rewrite_float_lit` prints ends in `.` (the suffix, an identifier, does not end in a dot).  So a caller
-that separates the literal from a following `.` whenever the predicate holds (range operators after
-14e6ac4 also behind `&` and in patterns, method calls, field accesses) never glues the two, and never
-separates without need. -/
-theorem nd_append (a b : List Char) (hb : b ≠ [] → b.getLast? ≠ some '.') (ha : b = [] → a.getLast? ≠ some '.') :
-    (a ++ b).getLast? ≠ some '.' := by
-  by_cases h : b = []
-  · subst h; simpa using ha rfl
-  · rw [getLast?_append_of_ne h]; exact hb h
-
-theorem endsInDot_exact (mode : TrailingZero) (hm : mode ≠ .preserve) (symbol suffix out : List Char)
-    (hs : suffix.getLast? ≠ some '.') (h : rewriteFloatLit mode symbol suffix = some out) :
-    ∃ b, floatLitEndsInDot mode symbol suffix = some b ∧ (b = true ↔ out.getLast? = some '.') := by
-  cases hp : parseFloatSymbol symbol with
-  | none => cases mode <;> simp [rewriteFloatLit, hp] at h
-  | some p =>
-    have wf := RF.Lemmas.Literal.parse_wf hp
-    rw [rewrite_eq mode hm symbol suffix p hp] at h
-    simp only [Option.some.injEq] at h
-    subst h
-    have hfrac : ∀ f, p.fractionalPart = some f → f ≠ [] ∧ f.getLast? ≠ some '.' := fun f hf =>
-      ⟨(wf.fp_ok f hf).2, all_digU_last (wf.fp_ok f hf).1 (wf.fp_ok f hf).2⟩
-    have hexp : ∀ e, p.exponent = some e → e ≠ [] ∧ e.getLast? ≠ some '.' := fun e he => expWF_last (wf.ex_ok e he)
-    have hipne := wf.ip_ne
-    have hip : p.integerPart.getLast? ≠ some '.' := all_digU_last wf.ip_all wf.ip_ne
-    obtain ⟨ip, fp, ex⟩ := p
-    simp only at hfrac hexp hip hipne
-    -- the digits printed after the point, when they are printed, do not end in a dot
-    have hfd : (fp.getD ['0']).getLast? ≠ some '.' ∧ fp.getD ['0'] ≠ [] := by
-      cases fp with
-      | none => exact ⟨by decide, by simp⟩
-      | some f => exact ⟨(hfrac f rfl).2, (hfrac f rfl).1⟩
-    have hed : ex.getD [] ≠ [] → (ex.getD []).getLast? ≠ some '.' := by
-      cases ex with
-      | none => intro h; exact absurd rfl h
-      | some e => intro _; exact (hexp e rfl).2
-    -- with the fractional digits printed, or with an exponent / suffix, the text does not end in a dot
-    have nd_frac : ∀ (per : List Char), ((((ip ++ per) ++ fp.getD ['0']) ++ ex.getD []) ++ suffix).getLast? ≠ some '.' := by
-      intro per
-      refine nd_append _ _ (fun _ => hs) (fun _ => nd_append _ _ hed (fun _ => nd_append _ _ (fun _ => hfd.1) (fun h0 => absurd h0 hfd.2)))
-    have nd_post : (ex.isSome || !suffix.isEmpty) = true → ∀ (mid : List Char), (mid.getLast? ≠ some '.' ∨ True) →
-        ((mid ++ ex.getD []) ++ suffix).getLast? ≠ some '.' := by
-      intro hpost mid _
-      refine nd_append _ _ (fun _ => hs) (fun hs0 => nd_append _ _ hed (fun he0 => ?_))
-      subst hs0
-      cases ex with
-      | none => simp at hpost
-      | some e => exact absurd he0 (hexp e rfl).1
-    cases mode with
-    | preserve => exact absurd rfl hm
-    | always =>
-      refine ⟨false, rfl, ?_⟩
-      simp only [choice, if_true, Bool.false_eq_true, false_iff]
-      exact nd_frac ['.']
-    | ifNoPostfix =>
-      refine ⟨false, rfl, ?_⟩
-      simp only [choice, Bool.false_eq_true, false_iff]
-      by_cases hc : (!FloatParts.isFractionalPartZero ⟨ip, fp, ex⟩ || !(ex.isSome || !suffix.isEmpty)) = true
-      · simp only [hc, if_true]; exact nd_frac ['.']
-      · have hc' : (!FloatParts.isFractionalPartZero ⟨ip, fp, ex⟩ || !(ex.isSome || !suffix.isEmpty)) = false := by simpa using hc
-        simp only [hc', Bool.false_eq_true, if_false, List.append_nil]
-        have hpost : (ex.isSome || !suffix.isEmpty) = true := by
-          simp only [Bool.or_eq_false_iff, Bool.not_eq_false'] at hc'; exact hc'.2
-        exact nd_post hpost ip (Or.inr trivial)
-    | never =>
-      refine ⟨!(ex.isSome || !suffix.isEmpty) && FloatParts.isFractionalPartZero ⟨ip, fp, ex⟩,
-        by unfold floatLitEndsInDot; simp only [hp], ?_⟩
-      simp only [choice]
-      by_cases hz : FloatParts.isFractionalPartZero ⟨ip, fp, ex⟩ = true
-      · by_cases hpost : (ex.isSome || !suffix.isEmpty) = true
-        · simp only [hz, hpost, Bool.not_true, Bool.or_self, Bool.false_eq_true, if_false, List.append_nil, Bool.and_true,
-            false_iff]
-          exact nd_post hpost ip (Or.inr trivial)
-        · have hpost' : (ex.isSome || !suffix.isEmpty) = false := by simpa using hpost
-          simp only [hz, hpost', Bool.not_true, Bool.not_false, Bool.false_or, if_true, Bool.false_eq_true, if_false,
-            List.append_nil, Bool.and_true, true_iff]
-          have hex0 : ex = none := by cases ex <;> simp_all
-          have hs0 : suffix = [] := by
-            cases suffix with
-            | nil => rfl
-            | cons a r => simp at hpost'
-          subst hex0; subst hs0
-          simp only [Option.getD_none, List.append_nil]
-          rw [getLast?_append_of_ne (by simp)]; rfl
-      · have hz' : FloatParts.isFractionalPartZero ⟨ip, fp, ex⟩ = false := by simpa using hz
-        simp only [hz', Bool.not_false, Bool.true_or, if_true, Bool.and_false, Bool.false_eq_true, false_iff]
-        exact nd_frac ['.']
-
-example : floatLitEndsInDot .never "1.0".toList [] = some true ∧ rewriteFloatLit .never "1.0".toList [] = some "1.".toList ∧
-    floatLitEndsInDot .never "1.5".toList [] = some false ∧ floatLitEndsInDot .never "1.0".toList "f32".toList = some false ∧
-    floatLitEndsInDot .never "1.0e5".toList [] = some false ∧ floatLitEndsInDot .always "1.".toList [] = some false := by decide
-
 /-- an `Integer` token with a float suffix goes through the float rewriter (`1f32` → `1.0f32` under Always) -/
 theorem rewriteInt_semantic_float (hex : HexCase) (fz : TrailingZero) (symbol suffix : List Char)
     (hs : isSemanticFloatSuffix suffix = true) :
